@@ -83,6 +83,35 @@ def run(rep, tier, rng):
             j = next((j for j in range(min(len(got), len(want))) if got[j] != want[j]), None)
             rep.violation({"what": "the effects completed before an error are not exactly those R7RS's evaluation order completes",
                            "program": forms, "form": forms[j] if j is not None else None, "expected": want, "implementation": r})
+    # FAULT STORM: more than a thousand faults one after another on ONE interpreter (one thread), raised below one to three pending
+    # procedure calls, through apply and through library procedures, of every kind - and afterwards every fault is still reported with
+    # its own kind and correct forms still evaluate normally (an error leaves nothing behind that adds up)
+    storm_defs = ["(define hits 0)", "(define (id q) q)", "(define (nest k) (if (= k 0) (vector-ref (vector 1) 5) (+ 1 (nest (- k 1)))))",
+                  "(define (bad-car q) (set! hits (+ hits 1)) (car q))", "(define (two a b) a)", "(define (call-two) (two 1))",
+                  "(define (deep k) (if (= k 0) (undefined-fn-zz 1) (id (deep (- k 1)))))"]
+    storm_faults = [("(bad-car 5)", "type"), ("(nest 3)", "vectorIndex"), ("(call-two)", "arity"), ("(deep 2)", "unbound"),
+                    ("(map bad-car '(1))", "type"), ("(apply bad-car '(7))", "type"), ("(id (/ 1 0))", "divZero"), ("((id 5) 1)", "nonProcedure"),
+                    ("(fold-left (lambda (a b) (car b)) 0 '(1 2))", "type"), ("(id (vector-set! #(1) 0 2))", "immutable")]
+    n_storm = 1300 if tier == "quick" else 6000
+    sforms, swant = list(storm_defs), ["N"] * len(storm_defs)
+    for i in range(n_storm):
+        f, k = storm_faults[i % len(storm_faults)] if i < 40 else rng.choice(storm_faults)
+        sforms.append(f); swant.append("E " + k)
+    for f, k in storm_faults:
+        sforms.append(f); swant.append("E " + k)
+    sforms += ["(id 7)", "(nest 0)" if False else "(fold-left + 0 (map id '(1 2 3)))", "(< 0 hits)"]
+    swant += ["V i:7", "V i:6", "V #t"]
+    sr = C.run_hx([("storm", "prog", ["std"] + sforms)]).get("storm", [])
+    rep.count(len(sforms))
+    rep.nontrivial(("storm", n_storm))
+    sgot = [x if not x.startswith("E ") else "E " + x.split(" ")[1] for x in sr]
+    if sgot != swant:
+        j = next((j for j in range(min(len(sgot), len(swant))) if sgot[j] != swant[j]), min(len(sgot), len(swant)))
+        rep.violation({"what": "after a long sequence of faults on one interpreter a form is no longer evaluated normally / a fault is no longer reported with its kind",
+                       "definitions": storm_defs, "faults_before": j - len(storm_defs), "form": sforms[j] if j < len(sforms) else None,
+                       "expected": swant[j] if j < len(swant) else None, "implementation": sr[j] if j < len(sr) else "(missing: %d results for %d forms)" % (len(sr), len(sforms)),
+                       "the_faulting_forms": [f for f, _ in storm_faults]})
+    rep.extra["fault_storm_forms"] = len(sforms)
     # the whole matrix of wrong-typed arguments to builtins, each form alone on a shared interpreter (an error leaves it usable)
     tmatrix, imatrix, amatrix = P.type_fault_matrix(), P.index_fault_matrix(), P.arity_fault_matrix()
     matrix = tmatrix + imatrix + amatrix
@@ -120,7 +149,7 @@ def main(tier, seed):
                        "(direct, tail, nested tail if, apply, inside a library procedure's callback, operand); plus the complete matrix of "
                        "wrong-typed arguments (every numeric builtin x arity x position x 4 offending values x direct/apply/map, pair and "
                        "vector accessors) and of out-of-range vector indices (lengths 0-3, every index just outside on either side) and of wrong argument counts (every native procedure, one "
-                       "too few / one and two too many, direct / apply / tail); distinct = "
+                       "too few / one and two too many, direct / apply / tail); a storm of 1300 (thorough 6000) faults below pending calls on one interpreter followed by every fault kind and normal forms; distinct = "
                        "distinct (kind, context, faulty form) triples")
     ok = C.standard_proof_phase(rep, MODULES, directed_search=lambda r: run(r, tier, rng))
     if ok:
